@@ -97,8 +97,20 @@ Fixpoint dest_ok (te : tenv) (d : dest) : bool :=
 with kod_ok (te : tenv) (k : kod) : bool :=
   match k with KNil => false | KKept _ => true | KTo d => dest_ok te d end.
 
+(* the built-in functions of the language: (name, context, parameter types, return type), and the
+   type names a declaration may use. Written here, not read from the implementation's tables: a
+   checker whose own table drifts (Gen/Tables.v is regenerated from check.go on every run, and
+   Proofs/CheckProofs.v / TablesOk.v require it to equal this) is then wrong against the specification *)
+Definition spec_builtins : list (string * string * list string * string) :=
+  [("balance", "origin", ["account"; "asset"], "monetary");
+   ("meta", "origin", ["account"; "string"], "any");
+   ("overdraft", "origin", ["account"; "asset"], "monetary");
+   ("set_account_meta", "statement", ["account"; "string"; "any"], "");
+   ("set_tx_meta", "statement", ["string"; "any"], "")].
+Definition spec_allowed_types : list string := ["monetary"; "account"; "portion"; "asset"; "number"; "string"].
+
 Definition sig_of (name ctx : string) : option (list string * string) :=
-  match find (fun b : string * string * list string * string => String.eqb (fst (fst (fst b))) name && String.eqb (snd (fst (fst b))) ctx) Tables.builtins with
+  match find (fun b : string * string * list string * string => String.eqb (fst (fst (fst b))) name && String.eqb (snd (fst (fst b))) ctx) spec_builtins with
   | Some b => Some (snd (fst b), snd b)
   | None => None
   end.
@@ -128,7 +140,7 @@ Fixpoint decls_ok (te : tenv) (ds : list vardecl) : option tenv :=
   | d :: ds' =>
       match vd_name d, vd_type d with
       | Some (_, n), Some (_, t) =>
-          if amem n te || negb (mem_str t Tables.allowed_types) then None
+          if amem n te || negb (mem_str t spec_allowed_types) then None
           else
             let te' := te ++ [(n, t)] in
             match vd_origin d with
